@@ -124,7 +124,10 @@ fn main() {
                 // a few initial pushes so that there is something below the first snapshot
                 let mut p = gen_stack(&mut rng, d);
                 for lit in ["a", "b", "c"].iter().take(rng.below(4) as usize) { p = Prog::Then(Box::new(Prog::PushLit(lit.to_string())), Box::new(p)); }
-                emit(&Case { lim: None, det: false, input: String::new(), env: vec![], prog: p }, &mut w);
+                emit(&Case { lim: None, det: false, input: String::new(), env: vec![], prog: p.clone() }, &mut w);
+                // one tree in four also under small call limits: a combinator refused by the limit is a failing combinator like any
+                // other (the enclosing sequence / look-ahead still has to leave position, tokens and stack as they were)
+                if rng.chance(1, 4) { for lim in [1usize, 2, 3, 4, 6, 9, 14] { emit(&Case { lim: Some(lim), det: false, input: String::new(), env: vec![], prog: p.clone() }, &mut w); } }
             }
         }
         // stack matching against partly matching inputs: two or three different literals pushed, then POP_ALL / PEEK_ALL /
